@@ -182,8 +182,10 @@ class ModbusConnectedRequestHandler(ModbusBaseRequestHandler):
         reset_frame = False
         while self.running:
             try:
-                units = self.server.context.slaves()
                 data = self.request.recv(1024)
+                # the hosted units as they are now, not as they were when
+                # the handler started to wait for this data
+                units = self.server.context.slaves()
                 if not data:
                     self.running = False
                 else:
